@@ -469,7 +469,7 @@ pub fn run(ctx: &Ctx) {
     ctx.enable_trace_pass(ctx.tier.pick(20000u64, 100000u64));
     ctx.set_rule("case = (document, fault) or a bad path list; faults: EVERY truncation offset of every document, deletion of every single element subtree / end tag / attribute, every attribute value replaced by every other distinct attribute value of the document (reference retargeting incl. self references and cycles, duplicate ids), by \"\" and by an unknown id, every element text replaced by hostile constants and by the other texts of the document, every byte replaced by each of '<' '>' '/' '\"' '&' ' ' NUL 0xFF, its low bit flipped and its case bit flipped; each case is one load in a worker process under a wall-clock deadline; non-trivial = the faulty content differs from the intact document");
     ctx.assume(&format!("hang detection by wall clock: a healthy load takes < 30 ms (measured maximum); deadline {:?}, and a case that misses it is re-run alone with {:?} before it is called a hang; the run stops after {} confirmed hangs", DEADLINE, SOLO_DEADLINE, MAX_HANGS));
-    ctx.assume("every loop iteration in read_event/read_pdu/read_frame consumes input except at end of file, where quick-xml keeps answering Eof: a hang needs 'Eof reached inside an inner loop', and every (loop, cut point) pair is in the truncation space");
+    ctx.assume("every loop iteration in read_event/read_pdu/read_frame consumes input except at end of file, where quick-xml keeps answering Eof: a hang needs 'Eof reached inside an inner loop', and every (loop, cut point) pair is in the truncation space; loader state that depends on which elements were opened and closed before the cut is exercised by c12.nesting (misplaced complete elements, then every cut)");
     std::fs::create_dir_all(scratch_root()).ok();
     let docs = documents(ctx.tier);
     ctx.put("documents", json!(docs.iter().map(|d| json!({"name": d.name, "bytes": d.doc.len(), "structural_deletions": d.deletions.len(), "value_substitutions": d.substitutions.len(), "byte_corruption": d.corrupt})).collect::<Vec<_>>()));
@@ -537,6 +537,78 @@ pub fn run(ctx: &Ctx) {
             loc.state(i + 7_000_000, true);
             judge_paths(&[p], &what, json!({"what": what}), loc);
         }).chunk(1));
+    }
+    // misplaced complete elements x truncation: a COMPLETE element of each kind inserted after every
+    // start tag and before every end tag of the default document (a PDU inside a FRAME, a FRAME inside
+    // a PDU / an instance list / a manufacturer extension, ...), then the file cut at every tag
+    // boundary (thorough: at every byte) from the insertion point on.  Loader state that tracks "the
+    // open element" meets an end tag that is not its own, and then end of file.
+    {
+        let base = docs.iter().find(|d| d.name == "generated/no indentation").map(|d| d.doc.clone()).unwrap_or_default();
+        let snippets: Vec<(&str, &[u8])> = vec![
+            ("PDU", b"<fx:PDU ID=\"PX\"><ho:SHORT-NAME>px</ho:SHORT-NAME><fx:BYTE-LENGTH>1</fx:BYTE-LENGTH><fx:PDU-TYPE>OTHER</fx:PDU-TYPE></fx:PDU>"),
+            ("FRAME", b"<fx:FRAME ID=\"ID_77\"><ho:SHORT-NAME>fx</ho:SHORT-NAME><fx:BYTE-LENGTH>2</fx:BYTE-LENGTH><fx:FRAME-TYPE>OTHER</fx:FRAME-TYPE></fx:FRAME>"),
+            ("SIGNAL", b"<fx:SIGNAL ID=\"SX\"><ho:SHORT-NAME>sx</ho:SHORT-NAME><fx:CODING-REF ID-REF=\"COD_A\"/></fx:SIGNAL>"),
+            ("CODING", b"<fx:CODING ID=\"CX\"><ho:SHORT-NAME>cx</ho:SHORT-NAME><ho:CODED-TYPE ho:BASE-DATA-TYPE=\"A_UINT8\"/></fx:CODING>"),
+            ("SIGNAL-INSTANCE", b"<fx:SIGNAL-INSTANCE ID=\"SIX\"><fx:SEQUENCE-NUMBER>7</fx:SEQUENCE-NUMBER><fx:SIGNAL-REF ID-REF=\"S_BOOL\"/></fx:SIGNAL-INSTANCE>"),
+            ("PDU-INSTANCE", b"<fx:PDU-INSTANCE ID=\"PIX\"><fx:SEQUENCE-NUMBER>7</fx:SEQUENCE-NUMBER><fx:PDU-REF ID-REF=\"P3\"/></fx:PDU-INSTANCE>"),
+            ("MANUFACTURER-EXTENSION", b"<fx:MANUFACTURER-EXTENSION><MESSAGE_TYPE>T</MESSAGE_TYPE><APPLICATION_ID>AX</APPLICATION_ID><CONTEXT_ID>CX</CONTEXT_ID></fx:MANUFACTURER-EXTENSION>"),
+            ("PDU without BYTE-LENGTH", b"<fx:PDU ID=\"PY\"><ho:SHORT-NAME>py</ho:SHORT-NAME></fx:PDU>"),
+            ("FRAME with PDU inside", b"<fx:FRAME ID=\"ID_78\"><ho:SHORT-NAME>fy</ho:SHORT-NAME><fx:BYTE-LENGTH>2</fx:BYTE-LENGTH><fx:PDU ID=\"PZ\"><ho:SHORT-NAME>pz</ho:SHORT-NAME><fx:BYTE-LENGTH>1</fx:BYTE-LENGTH></fx:PDU></fx:FRAME>"),
+        ];
+        // insertion points: right after every start tag of a non-empty element, right before every end tag
+        let mut points: Vec<usize> = vec![];
+        {
+            let mut i = 0;
+            while i < base.len() {
+                if base[i] == b'<' {
+                    let end = base[i..].iter().position(|b| *b == b'>').map(|e| i + e + 1).unwrap_or(base.len());
+                    let tag = &base[i..end];
+                    if tag.starts_with(b"</") {
+                        points.push(i);
+                    } else if !tag.starts_with(b"<?") && !tag.starts_with(b"<!") && !tag.ends_with(b"/>") {
+                        points.push(end);
+                    }
+                    i = end;
+                } else {
+                    i += 1;
+                }
+            }
+            points.sort();
+            points.dedup();
+        }
+        let every_byte = true;
+        // per (point, snippet): the composed document and its cut offsets
+        let mut composed: Vec<(Vec<u8>, Vec<usize>, String)> = vec![];
+        for p in &points {
+            for (name, snip) in &snippets {
+                let mut d = base[..*p].to_vec();
+                d.extend_from_slice(snip);
+                d.extend_from_slice(&base[*p..]);
+                let cuts: Vec<usize> = (*p..=d.len()).filter(|c| every_byte || *c == d.len() || d[*c] == b'<' || (*c > 0 && d[*c - 1] == b'>')).collect();
+                let ctxt = String::from_utf8_lossy(&base[p.saturating_sub(30)..*p]).to_string();
+                composed.push((d, cuts, format!("a complete {} element inserted at byte {} (after {:?})", name, p, ctxt)));
+            }
+        }
+        let mut bounds = vec![];
+        let mut total = 0u64;
+        for (_, cuts, _) in &composed {
+            total += cuts.len() as u64;
+            bounds.push(total);
+        }
+        let (composed, bounds) = (&composed, &bounds);
+        ctx.run_family(Family::new("c12.nesting", total, format!("the generated document (no indentation) with a COMPLETE element of each of {} kinds (PDU, FRAME, SIGNAL, CODING, SIGNAL-INSTANCE, PDU-INSTANCE, MANUFACTURER-EXTENSION, PDU without BYTE-LENGTH, FRAME holding a PDU) inserted at each of {} points (after every start tag, before every end tag), cut at {} from the insertion point to the end", snippets.len(), points.len(), if every_byte { "EVERY byte" } else { "every tag boundary" }), move |i, loc| {
+            let s = bounds.partition_point(|b| *b <= i);
+            let j = if s > 0 { i - bounds[s - 1] } else { i };
+            let (d, cuts, about) = &composed[s];
+            let cut = cuts[j as usize];
+            let dir = thread_dir();
+            let p = format!("{}/nest.xml", dir);
+            std::fs::write(&p, &d[..cut]).expect("write");
+            let what = format!("generated document with {}, cut at byte {} of {}", about, cut, d.len());
+            loc.state(fnv64(&d[..cut]), true);
+            judge_paths(&[p], &what, json!({"what": what, "content": String::from_utf8_lossy(&d[..cut]).chars().take(4000).collect::<String>()}), loc);
+        }));
     }
     // a multi-byte character at EVERY byte offset of a DESC text, in a document with duplicated PDU and
     // frame ids (the loader's diagnostics quote such texts; with the trace pass they are formatted)
